@@ -2,7 +2,7 @@ SPECIFICATION GenSpec
 CONSTANTS
   Sigma = {"a", "b"}
   L = 5
-  Leaves <- AllLeaves
+  Leaves <- SimLeaves
   UnOps <- AllUn
   Pool <- SimPool
   MaxDepth = 7
